@@ -938,6 +938,13 @@ pub fn o_dirty(prop: &str, ops: &[Op], ex: &Exec) -> V {
             Err(e) => push(&mut v, format!("{prop}/abandoned-volume-does-not-mount"), format!("{e:?}")),
         }
     }
+    // the history itself ended the session (explicit unmount, or plain drop = the documented implicit unmount)
+    if let (Some((at_mount, after)), Some(Ok(_)), None) = (ex.epoch_end_status, ex.outs.last(), ex.fired_early) {
+        if after != at_mount {
+            let how = if matches!(ops.last(), Some(Op::DropRemount)) { "drop" } else { "unmount" };
+            push(&mut v, format!("{prop}/{how}-did-not-restore-status"), format!("status byte {after:#04x} after {how}, {at_mount:#04x} when that session was mounted"));
+        }
+    }
     if let Some(Ok(())) = &ex.suffix.unmount {
         if ex.suffix.status_unmounted != mount {
             push(&mut v, format!("{prop}/unmount-did-not-restore-status/{kind}"), format!("status byte {:#04x} after unmount, mount-time {mount:#04x}", ex.suffix.status_unmounted));
